@@ -37,6 +37,10 @@ add("C02", "generated expression trees vs an independent canonical renderer over
     "rapid-generated trees with every per-node option combination and Unicode/blank/empty leaves are rendered by the real String() and by a ~150-line reference renderer written from the statement; results must match (optional blank only at documented open positions), be idempotent and equal fmt %s. Thorough adds 16 shards, deeper trees and 90 s of native fuzzing through rapid.MakeFuzz. Exploration only.",
     "Trusted: the reference renderer (render.go) and its lenient positions; fmt for number formatting. Excluded inputs are listed in the evidence assumptions.")
 
+add("C06", "model-based stateful property testing (rapid) of setter histories against a three-field Condition model",
+    "Generated Cond/Init starts followed by up to 25 setter calls with accepted and rejected arguments (nil/empty/bogus operators, nil/empty expressions, stacks under no-nesting, expressions under error); after every step Keyword/Operator/Expression, Err, Valid, String (canonical text, gated by validity) and option getters are compared with the model. Exploration only.",
+    "Trusted: the acceptance rules as written in the statement; reference renderer for stack expressions. No policies installed.")
+
 NOT_YET = {}
 
 ALL = ["C%02d" % i for i in range(1, 21)]
